@@ -55,6 +55,12 @@ Proof. unfold Z.sub. rewrite inject_Z_plus, inject_Z_opp. reflexivity. Qed.
 Lemma inject_Z_plus1 q : (inject_Z (q + 1) == inject_Z q + 1)%Q.
 Proof. rewrite inject_Z_plus. reflexivity. Qed.
 
+Lemma bitlen_bounds_Z z : 0 < z -> 2 ^ (bitlen z - 1) <= z < 2 ^ bitlen z.
+Proof. intros H. destruct z as [|p|p]; try lia. apply bitlen_bounds. Qed.
+
+Lemma bitlen_ge1_Z z : 0 < z -> 1 <= bitlen z.
+Proof. intros H. destruct z as [|p|p]; try lia. apply bitlen_pos_ge1. Qed.
+
 (* a # d as a quotient *)
 Lemma Qmake_mult a (d : positive) : ((a # d) * inject_Z (Zpos d) == inject_Z a)%Q.
 Proof. unfold Qeq, Qmult, inject_Z. cbn. lia. Qed.
@@ -302,4 +308,158 @@ Section RoundMag.
         assert (E0 : (x - R == 0)%Q) by lra.
         rewrite E0. change (Qabs 0) with 0%Q. apply Qabs_nonneg.
   Qed.
+
+  (* ---- overflow: the rounded magnitude reaches 2^mx exactly when x is at
+     least 2^mx minus half a unit of the last place of the top binade (the
+     tie is rounded to the even neighbour, which is 2^mx) *)
+  Lemma rm_exact : sh <= 0 -> (x == R)%Q.
+  Proof.
+    intros Hsh. destruct rm_shape as [He' [_ [Hsh0 _]]].
+    assert (Hs : sticky = false).
+    { destruct (Bool.bool_dec sticky true) as [Es|Es]; [pose proof (rm_sh_pos_when_sticky Es); lia|].
+      apply not_true_is_false. exact Es. }
+    assert (Hmod : a mod Zpos d = 0).
+    { unfold sticky in Hs. apply negb_false_iff in Hs. apply Z.eqb_eq in Hs. exact Hs. }
+    assert (Ea : a = m * Zpos d).
+    { unfold m. pose proof (Z.div_mod a (Zpos d) ltac:(lia)). lia. }
+    assert (Hd : (0 < inject_Z (Zpos d))%Q) by (apply (inject_Z_lt 0); lia).
+    unfold x, R. rewrite (Hsh0 Hsh). replace e' with e by lia.
+    apply (Qmult_inj_r _ _ (inject_Z (Zpos d))); [lra|].
+    setoid_replace ((a # d) * T e * inject_Z (Z.pos d))%Q with (((a # d) * inject_Z (Z.pos d)) * T e)%Q by ring.
+    rewrite Qmake_mult. rewrite Ea at 1. rewrite inject_Z_mult. ring.
+  Qed.
+
+  Lemma rm_R_bounds : 0 < q' -> (T (bitlen q' - 1 + e') <= R)%Q /\ (R < T (bitlen q' + e'))%Q.
+  Proof.
+    intros Hq. pose proof (bitlen_bounds_Z q' Hq) as [B1 B2]. pose proof (bitlen_ge1_Z q' Hq) as Hn.
+    pose proof (T_pos e') as Hu. unfold R.
+    rewrite !T_add, (T_Z (bitlen q' - 1)), (T_Z (bitlen q')) by lia. split.
+    - apply Qmul_le_r; [lra|]. apply inject_Z_le. exact B1.
+    - apply Qmult_lt_r; [exact Hu|]. apply inject_Z_lt. exact B2.
+  Qed.
+
+  Lemma rm_R_zero : q' = 0 -> (R == 0)%Q.
+  Proof. intros E. unfold R. rewrite E. change (inject_Z 0) with 0%Q. ring. Qed.
+
+  (* the exponent of the last place: that of the binade, or emin *)
+  Lemma rm_e'_cases : 0 < sh ->
+    e' = bitlen m - prec + e \/ (exists em, emin = Some em /\ e' = em /\ bitlen m - prec + e <= em).
+  Proof.
+    intros Hsh. destruct rm_shape as [He' _]. unfold sh, round_shift in *. rewrite rm_pos in *.
+    destruct emin as [em|]; [|left; lia].
+    destruct (Z.le_gt_cases (em - e) (bitlen m - prec)); [left; lia|right; exists em; split; [reflexivity|lia]].
+  Qed.
+
+  Section Overflow.
+    Variable mx : Z.
+    Hypothesis Hmx : match emin with Some em => em + prec <= mx | None => True end.
+
+    Let Thr : Q := (T mx - T (mx - prec - 1))%Q.
+
+    Lemma rm_overflow_1 : mx < bitlen q' + e' -> (Thr <= x)%Q.
+    Proof.
+      intros Hov. unfold Thr.
+      destruct rm_shape as [He' [[Hq0 _] _]].
+      destruct round_mag_half_ulp as [Hh _]. apply Qabs_Qle_condition in Hh.
+      destruct rm_binade as [B1 B2].
+      pose proof (T_pos (mx - prec - 1)) as P1. pose proof (T_pos e') as P2.
+      destruct (Z.lt_ge_cases 0 sh) as [Hsh|Hsh].
+      - destruct (Z.eq_dec q' 0) as [E0|E0].
+        + (* the rounded magnitude is zero: impossible *)
+          exfalso. pose proof (rm_R_zero E0) as RZ. rewrite E0 in Hov. change (bitlen 0) with 0 in Hov.
+          destruct (rm_e'_cases Hsh) as [Ee|[em [Eem [Ee _]]]].
+          * pose proof (T_le e' (bitlen m - 1 + e) ltac:(lia)) as L1.
+            pose proof (T_half e') as L2. lra.
+          * rewrite Eem in Hmx. lia.
+        + assert (Hq : 0 < q') by lia. destruct (rm_R_bounds Hq) as [R1 _].
+          pose proof (T_le mx (bitlen q' - 1 + e') ltac:(lia)) as L1.
+          pose proof (T_half e') as L2.
+          destruct (Z.le_gt_cases e' (mx - prec)) as [Hle|Hgt].
+          * pose proof (T_le (e' - 1) (mx - prec - 1) ltac:(lia)) as L3. lra.
+          * destruct (rm_e'_cases Hsh) as [Ee|[em [Eem [Ee _]]]].
+            -- pose proof (T_le mx (bitlen m - 1 + e) ltac:(lia)) as L3. lra.
+            -- rewrite Eem in Hmx. lia.
+      - pose proof (rm_exact Hsh) as Ex.
+        assert (Hq : 0 < q').
+        { destruct rm_shape as [_ [_ [Hsh0 _]]]. rewrite (Hsh0 Hsh). exact Hm. }
+        destruct (rm_R_bounds Hq) as [R1 _].
+        pose proof (T_le mx (bitlen q' - 1 + e') ltac:(lia)) as L1. lra.
+    Qed.
+
+    Lemma rm_overflow_2 : (Thr <= x)%Q -> mx < bitlen q' + e'.
+    Proof.
+      intros Hx. unfold Thr in Hx.
+      destruct (Z.lt_ge_cases mx (bitlen q' + e')) as [Hc|Hc]; [exact Hc|]. exfalso.
+      destruct rm_shape as [He' [[Hq0 Hq1] [Hsh0 Hsh1]]].
+      destruct round_mag_half_ulp as [Hh Heven].
+      destruct rm_binade as [B1 B2].
+      pose proof (T_pos (mx - prec - 1)) as P1. pose proof (T_pos e') as P2. pose proof (T_pos mx) as P3.
+      (* the binade of x is at least that of 2^(mx-1) *)
+      assert (HN : mx <= bitlen m + e).
+      { destruct (Z.le_gt_cases mx (bitlen m + e)) as [H|H]; [exact H|]. exfalso.
+        pose proof (T_le (bitlen m + e) (mx - 1) ltac:(lia)) as L1.
+        pose proof (T_half mx) as L2. pose proof (T_le (mx - prec - 1) (mx - 1) ltac:(lia)) as L3. lra. }
+      (* R < 2^mx *)
+      assert (HR : (R < T mx)%Q).
+      { destruct (Z.eq_dec q' 0) as [E0|E0]; [rewrite (rm_R_zero E0); exact P3|].
+        destruct (rm_R_bounds ltac:(lia)) as [_ R2]. pose proof (T_le (bitlen q' + e') mx Hc). lra. }
+      destruct (Z.lt_ge_cases 0 sh) as [Hsh|Hsh].
+      - assert (He'lo : mx - prec <= e').
+        { unfold sh, round_shift in *. rewrite rm_pos in *. destruct emin; lia. }
+        apply Qabs_Qle_condition in Hh.
+        pose proof (T_half e') as L2.
+        destruct (Z.lt_ge_cases mx e') as [Hbig|Hsmall].
+        + (* the unit exceeds 2^mx: R = 0 *)
+          assert (E0 : q' = 0).
+          { destruct (Z.eq_dec q' 0) as [E|E]; [exact E|]. exfalso.
+            assert (L : (T e' <= R)%Q).
+            { unfold R. setoid_replace (T e') with (1 * T e')%Q at 1 by ring.
+              apply Qmul_le_r; [lra|]. apply (inject_Z_le 1). lia. }
+            pose proof (T_le mx e' ltac:(lia)). lra. }
+          pose proof (rm_R_zero E0) as RZ.
+          destruct (rm_e'_cases Hsh) as [Ee|[em [Eem [Ee _]]]].
+          * pose proof (T_le e' (bitlen m - 1 + e) ltac:(lia)) as L1. lra.
+          * rewrite Eem in Hmx. lia.
+        + (* R is at most 2^mx - 2^e' *)
+          assert (Hq'lt : q' < 2 ^ (mx - e')).
+          { rewrite Zlt_Qlt. apply (Qmult_lt_r _ _ (T e') P2). fold R.
+            rewrite <- T_Z, <- T_add by lia. replace (mx - e' + e') with mx by lia. exact HR. }
+          assert (HRle : (R <= T mx - T e')%Q).
+          { unfold R. setoid_replace (T mx - T e')%Q with ((inject_Z (2 ^ (mx - e')) - 1) * T e')%Q.
+            - apply Qmul_le_r; [lra|]. rewrite <- inject_Z_minus1. apply inject_Z_le. lia.
+            - rewrite <- T_Z by lia. setoid_replace ((T (mx - e') - 1) * T e')%Q with (T (mx - e') * T e' - T e')%Q by ring.
+              rewrite <- T_add. replace (mx - e' + e') with mx by lia. reflexivity. }
+          (* hence e' = mx - prec and x is the tie *)
+          assert (Ee : e' = mx - prec).
+          { destruct (Z.le_gt_cases e' (mx - prec)) as [H|H]; [lia|]. exfalso.
+            pose proof (T_lt (mx - prec - 1) (e' - 1) ltac:(lia)). lra. }
+          assert (L3 : (T (mx - prec - 1) == T (e' - 1))%Q) by (rewrite Ee; replace (mx - prec - 1) with (mx - prec - 1) by lia; reflexivity).
+          assert (Etie : (x - R == (1 # 2) * T e')%Q) by lra.
+          assert (ER : (R == T mx - T e')%Q) by lra.
+          assert (Eq' : q' = 2 ^ prec - 1).
+          { apply inject_Z_injective. apply (Qmult_inj_r _ _ (T e')); [lra|]. fold R. rewrite ER.
+            rewrite inject_Z_minus1, <- T_Z by lia.
+            setoid_replace ((T prec - 1) * T e')%Q with (T prec * T e' - T e')%Q by ring.
+            rewrite <- T_add. replace (prec + e') with mx by lia. reflexivity. }
+          assert (Hev : Z.even q' = true).
+          { apply Heven. rewrite Etie. apply Qabs_pos. lra. }
+          rewrite Eq' in Hev. rewrite Z.even_sub, Z.even_pow in Hev by lia. discriminate.
+      - (* exact: x = m * 2^e with at most prec bits *)
+        pose proof (rm_exact Hsh) as Ex. rewrite (Hsh0 Hsh) in *.
+        assert (Ee : e' = e) by lia.
+        assert (EN : bitlen m + e = mx) by lia.
+        assert (Hn : bitlen m <= prec).
+        { unfold sh, round_shift in Hsh. rewrite rm_pos in Hsh. destruct emin; lia. }
+        pose proof (bitlen_bounds_Z m Hm) as [_ Bm]. pose proof (bitlen_ge1_Z m Hm) as Hn1.
+        assert (HRle : (R <= T mx - T e)%Q).
+        { unfold R. rewrite Ee. setoid_replace (T mx - T e)%Q with ((inject_Z (2 ^ bitlen m) - 1) * T e)%Q.
+          - apply Qmul_le_r; [pose proof (T_pos e); lra|]. rewrite <- inject_Z_minus1. apply inject_Z_le. lia.
+          - rewrite <- T_Z by lia. setoid_replace ((T (bitlen m) - 1) * T e)%Q with (T (bitlen m) * T e - T e)%Q by ring.
+            rewrite <- T_add. rewrite EN. reflexivity. }
+        pose proof (T_lt (mx - prec - 1) e ltac:(lia)). lra.
+    Qed.
+
+    Theorem round_mag_overflow : mx < bitlen q' + e' <-> (T mx - T (mx - prec - 1) <= x)%Q.
+    Proof. split; [exact rm_overflow_1|exact rm_overflow_2]. Qed.
+  End Overflow.
 End RoundMag.
